@@ -8,7 +8,7 @@ from props._semprop import fill
 from sem import run_semantic
 
 MODULE = "Proofs.Props.C01"
-THEOREMS = ["Facto.Circuit.evalEnt_local"]
+THEOREMS = ["Facto.Circuit.evalEnt_local", "Facto.scalar_end_to_end", "Facto.read_isolated"]
 WILD = {"signal-each", "signal-anything", "signal-everything"}
 
 
